@@ -83,15 +83,39 @@ pub struct HostStats {
     pub getrandom_other: u64,
     pub clock_reads_worker: u64,
     pub pid_reads_worker: u64,
+    pub env_reads_worker: u64,
+    pub cwd_reads_worker: u64,
+    pub fs_calls_worker: u64,
+    pub ncpu_reads_worker: u64,
 }
 
 impl Proc {
-    pub fn start(env: &[(String, String)]) -> HResult<Proc> {
+    /// `sandbox`: directory that is this scenario's disk. The process runs with its cwd inside it,
+    /// TMPDIR/HOME/OUT_DIR/... point into it, and `$SANDBOX` in env values is replaced by its path.
+    pub fn start(env: &[(String, String)], sandbox: Option<&std::path::Path>) -> HResult<Proc> {
         let exe = std::env::current_exe().map_err(|e| HostError::Died(e.to_string()))?;
         let mut cmd = Command::new(exe);
         cmd.arg("host").stdin(Stdio::piped()).stdout(Stdio::piped()).stderr(Stdio::inherit());
-        for (k, v) in env {
-            cmd.env(k, v);
+        if let Some(sb) = sandbox {
+            let sbs = sb.display().to_string();
+            let mut cwd = sb.join("cwd");
+            cmd.env("TMPDIR", sb.join("tmp")).env("HOME", sb.join("home"));
+            for (k, v) in env {
+                let v = v.replace("$SANDBOX", &sbs);
+                if k == "VERIF_CWD" {
+                    cwd = sb.join(&v);
+                    continue;
+                }
+                cmd.env(k, v);
+            }
+            for d in [sb.join("tmp"), sb.join("home"), cwd.clone()] {
+                let _ = std::fs::create_dir_all(d);
+            }
+            cmd.current_dir(cwd);
+        } else {
+            for (k, v) in env {
+                cmd.env(k, v);
+            }
         }
         // The kernel's address-space randomisation is nondeterminism the simulator does not own:
         // switch it off for the simulated process and let the scheduler choose the layout instead
@@ -232,12 +256,17 @@ impl Proc {
         Ok(l.split(' ').nth(1).and_then(|x| x.parse().ok()).unwrap_or(0))
     }
 
+    pub fn probe(&mut self, w: u64) -> HResult<String> {
+        self.send(&format!("Y {w}\n"))?;
+        self.expect_ok()
+    }
+
     pub fn stats(&mut self) -> HResult<HostStats> {
         self.send("T\n")?;
         let l = self.line()?;
         self.disarm();
         let p: Vec<u64> = l.split(' ').skip(1).filter_map(|x| x.parse().ok()).collect();
-        if p.len() != 4 {
+        if p.len() != 8 {
             return Err(HostError::Protocol(l));
         }
         Ok(HostStats {
@@ -245,6 +274,10 @@ impl Proc {
             getrandom_other: p[1],
             clock_reads_worker: p[2],
             pid_reads_worker: p[3],
+            env_reads_worker: p[4],
+            cwd_reads_worker: p[5],
+            fs_calls_worker: p[6],
+            ncpu_reads_worker: p[7],
         })
     }
 
